@@ -449,6 +449,19 @@ pub fn run_tree_with(mk: fn(&mut Xot) -> HVocab, t: &GTree, start_path: &[usize]
         if p.indent.as_ref().map_or(false, |s| !s.is_empty()) {
             sink.stat("params.suppress-list");
         }
+        if let Some(sup) = &p.indent {
+            // html_matches_suppress leaves the whole search at the first listed name outside the HTML namespaces
+            // (C19_suppress_exact / C19_suppress_early_exit): the families in which that is visible
+            let html = |n: &usize| matches!(hv.v.namespaces[hv.ns_of(*n)].0.as_str(), "" | HTTPS_URI);
+            if let Some(i) = sup.iter().position(|n| !html(n)) {
+                if sup[i + 1..].iter().any(|n| html(n)) {
+                    sink.stat("params.suppress-list.foreign-before-html");
+                }
+            }
+            if sup.iter().skip(1).any(|n| !html(n)) {
+                sink.stat("params.suppress-list.foreign-not-first");
+            }
+        }
         if let (Res::Ok(a), Res::Ok(_)) = (s, w) {
             if a != written {
                 fail(sink, &Finding { signature: "C19:write-differs-from-string".to_string(), what: "serialize_write bytes differ from serialize_string".to_string() }, t, start_path, p, s);
@@ -551,6 +564,25 @@ fn corpus(sink: &mut Sink) {
             (GTree::leaf(PI(h("xml-stylesheet"), Some("href=\"a\"?".into()))), vec![], vec![plain.clone()]),
             // suppress list: a foreign name first ends the search; case-insensitive match
             (e(h("div"), vec![e(h("ul"), vec![e(h("li"), vec![])])]), vec![], vec![HParams { cdata: vec![], indent: Some(vec![hv.id("x", NS_A), h("ul")]) }, HParams { cdata: vec![], indent: Some(vec![x("ul")]) }, HParams { cdata: vec![], indent: Some(vec![h("div")]) }]),
+            // C19_suppress_early_exit, pinned by correspondence (html_matches_suppress returns from the whole
+            // search, not from the iteration): (1) a foreign name IN FRONT hides a later HTML name - `ul` is
+            // suppressed by [ul], [ul, urn:a x] and [UL-in-XHTML_NS-spelling], not by [urn:a x, ul];
+            (e(h("div"), vec![e(h("ul"), vec![e(h("li"), vec![])]), e(h("table"), vec![e(h("td"), vec![])])]), vec![], vec![
+                HParams { cdata: vec![], indent: Some(vec![hv.id("x", NS_A), h("ul")]) },
+                HParams { cdata: vec![], indent: Some(vec![h("ul"), hv.id("x", NS_A)]) },
+                HParams { cdata: vec![], indent: Some(vec![h("ul")]) },
+                HParams { cdata: vec![], indent: Some(vec![svg("g"), h("ul"), h("table")]) },
+                HParams { cdata: vec![], indent: Some(vec![h("table"), x("ul")]) },
+            ]),
+            // (2) a name outside the HTML namespaces is honoured in FIRST position only, and an element outside the
+            // HTML namespaces ends the search at the first listed name that is not itself
+            (e(h("div"), vec![GTree::leaf(Namespace(2, NS_A)), e(svg("g"), vec![e(svg("circle"), vec![])]), e(h("ul"), vec![e(h("li"), vec![])]), e(hv.id("a", NS_A), vec![e(hv.id("b", NS_A), vec![])])]), vec![], vec![
+                HParams { cdata: vec![], indent: Some(vec![svg("g"), h("ul")]) },
+                HParams { cdata: vec![], indent: Some(vec![h("ul"), svg("g")]) },
+                HParams { cdata: vec![], indent: Some(vec![hv.id("a", NS_A), svg("g")]) },
+                HParams { cdata: vec![], indent: Some(vec![svg("g"), hv.id("a", NS_A)]) },
+                HParams { cdata: vec![], indent: Some(vec![]) },
+            ]),
             // serialising from an inner node: inherited declarations, text inside script
             (e(h("div"), vec![GTree::leaf(Namespace(0, SVG)), GTree::leaf(Namespace(2, NS_A)), e(svg("svg"), vec![e(hv.id("a", NS_A), vec![])]), e(h("script"), vec![tx("1<2")])]), vec![2], both.to_vec()),
             (e(h("div"), vec![e(h("script"), vec![tx("1<2")])]), vec![0, 0], vec![plain.clone()]),
